@@ -373,6 +373,23 @@ def pin_trace(mod, plan, sig):
 
 
 # ------------------------------------------------------------------ evidence
+def _faults_fired(mod, stats):
+    """Faults that actually fired: the shim's own fault table (fault:*) plus
+    what a module injects by other means (crash images, corrupted bytes,
+    clock behaviour, stale derived files) and counts under FAULT_COUNTERS =
+    {statistic: fault kind}."""
+    out = {k[6:]: v for k, v in stats.items() if k.startswith("fault:")}
+    for key, kind in getattr(mod, "FAULT_COUNTERS", {}).items():
+        if key.endswith("*"):
+            for k, v in stats.items():
+                if k.startswith(key[:-1]) and v:
+                    kk = kind + k[len(key) - 1:]
+                    out[kk] = out.get(kk, 0) + v
+        elif stats.get(key):
+            out[kind] = out.get(kind, 0) + stats[key]
+    return out
+
+
 def write_evidence(mod, tier, base, agg, wall, nviol, extra=None):
     if os.environ.get("VERIF_NO_EVIDENCE") or os.path.realpath(
             os.environ.get("VERIF_REPO", "/repo")) != "/repo":
@@ -392,8 +409,7 @@ def write_evidence(mod, tier, base, agg, wall, nviol, extra=None):
         "runs_per_hour": rph,
         "seeds_per_hour": rph,
         "simulated_seconds": round(stats.pop("sim_ns", 0) / 1e9, 3),
-        "faults_fired": {k[6:]: v for k, v in stats.items()
-                         if k.startswith("fault:")},
+        "faults_fired": _faults_fired(mod, stats),
         "probes": {k[6:]: v for k, v in stats.items()
                    if k.startswith("probe:")},
         "policies": {k[7:]: v for k, v in stats.items()
